@@ -21,4 +21,13 @@ for d in sorted(glob.glob(os.path.join(VERIF, "seeded", "*"))):
     else:
         desc, fr = first.get(name, [m.get("needs_to_manifest", ""), ""])
     rows.append(f"| {name} | {desc} | {caught} | {fr} |")
-print("\n".join(rows))
+import sys
+if "--write" in sys.argv:
+    dp = os.path.join(VERIF, "DESIGN.md")
+    t = open(dp).read()
+    a, b = t.index("<!-- SEED_TABLE_BEGIN -->"), t.index("<!-- SEED_TABLE_END -->")
+    t = t[:a] + "<!-- SEED_TABLE_BEGIN -->\n" + "\n".join(rows) + "\n" + t[b:]
+    open(dp, "w").write(t)
+    print(len(rows), "rows written")
+else:
+    print("\n".join(rows))
